@@ -252,33 +252,43 @@ def _hist_case(cls, w, seq, start=None):
 
 
 def stateless(rec, cls, w, events, depth, tmp, first):
-    """every history over `events` with first event `first` and length <= depth, each executed from scratch"""
+    """every history over `events` that starts with the prefix `first` (one event or a list of events) and has length <= depth,
+    each executed from scratch; the shard of the all-`events[0]` prefix also runs the histories shorter than the prefix"""
     path = os.path.join(tmp, f"sl-{cls}-{w}.txt") if cls != "mem" else None
+    prefix = (first,) if isinstance(first, str) else tuple(first)
     n = skipped = 0
     ops = 0
-    lengths = range(0 if first == events[0] else 1, depth + 1)
-    for L in lengths:
-        for tail in itertools.product(events, repeat=max(L - 1, 0)):
-            seq = ((first,) + tail) if L else ()
-            m = Machine(cls, w, path)
-            ok = True
-            for i, ev in enumerate(seq):
-                if not m.applicable(ev):
-                    ok = False
-                    break
-                r = m.apply(ev)
-                rec.transitions += 1
-                if r:
-                    rec.violation(_sig(r[0], cls, _feat(seq[: i + 1])), _hist_case(cls, w, seq[: i + 1]), r[1], r[2])
-                    break
-            ops += m.ops
-            if ok:
-                n += 1
-            else:
-                skipped += 1
+
+    def histories():
+        if prefix == (events[0],) * len(prefix):
+            for L in range(len(prefix)):
+                yield from itertools.product(events, repeat=L)
+        for L in range(len(prefix), depth + 1):
+            for tail in itertools.product(events, repeat=L - len(prefix)):
+                yield prefix + tail
+
+    empty = 0
+    for seq in histories():
+        empty += not seq
+        m = Machine(cls, w, path)
+        ok = True
+        for i, ev in enumerate(seq):
+            if not m.applicable(ev):
+                ok = False
+                break
+            r = m.apply(ev)
+            rec.transitions += 1
+            if r:
+                rec.violation(_sig(r[0], cls, _feat(seq[: i + 1])), _hist_case(cls, w, seq[: i + 1]), r[1], r[2])
+                break
+        ops += m.ops
+        if ok:
+            n += 1
+        else:
+            skipped += 1
     rec.traces += n
     rec.evaluations += n
-    rec.nontrivial += max(n - (1 if lengths[0] == 0 else 0), 0)
+    rec.nontrivial += max(n - empty, 0)
     rec.ops += ops
     rec.count(f"stateless_histories_{cls}_w{w}", n)
     rec.count("histories_cut_at_an_unjudged_narrowing", skipped)
@@ -398,7 +408,7 @@ def wide(rec, cls, restart_every, tmp):
         if ok:
             rec.outcome(f"wide/{cls}/w={w}/restart={restart_every}")
             if w in (54, 64):
-                rec.sample({"provider": _clsname(cls), "width": w, "starts_at": top, "calls": 8, "expected": [(top + i) % (1 << w) for i in range(8)]}, limit=2)
+                rec.sample({"provider": _clsname(cls), "width": w, "starts_at": str(top), "calls": 8, "expected": [str((top + i) % (1 << w)) for i in range(8)]}, limit=2)
     rec.count(f"wide_widths_{cls}", len(WIDE))
 
 
@@ -567,9 +577,9 @@ def shards(tier):
     items.append({"kind": "wide", "cls": "mem", "restart": False})
     # file-backed: exhaustive small widths
     for w in (1, 2, 3) if q else (1, 2, 3, 4):
-        for first in "NGCR":
-            items.append({"kind": "stateless", "cls": "file", "w": w, "first": first, "events": list("NGCR"),
-                          "depth": min(2 * (1 << w) + 2, 8 if q else 10) if w < 3 else (7 if q else 8)})
+        depth = min(2 * (1 << w) + 2, 8 if q else 10) if w < 3 else (7 if q else 8)
+        for first in ([[a] for a in "NGCR"] if depth < 9 else [[a, b] for a in "NGCR" for b in "NGCR"]):  # deep ones: 16 shards
+            items.append({"kind": "stateless", "cls": "file", "w": w, "first": first, "events": list("NGCR"), "depth": depth})
     set_ev = ["N", "G", "C", "R", "W1", "W2", "W3"]
     for w in (1, 2, 3):
         for first in set_ev:
